@@ -55,7 +55,8 @@ def step (_ : Unit) (ws : List String) : Unit × String :=
     let strip (t : String) : String := if t.endsWith "g" then (t.dropEnd 1).toString else t
     match (w.drop 2).toString.toNat?, parseItems 0 (aToks.map strip), parseItems 0 bToks with
     | some cores, some a, some b =>
-      if cores < 1 ∨ cores > 64 ∨ ¬ rest.contains "B" then ((), "bad-op") else
+      if cores < 1 ∨ cores > 64 ∨ ¬ rest.contains "B" ∨
+          aToks.any (fun t => t.endsWith "g" && t.startsWith "e") then ((), "bad-op") else
       let ty : Item → Nat := fun x => x.2.1
       let v1 : Item → Bool := fun x => x.2.2
       let r (its : List Item) := if blockSigOk ty defaultBatched v1 cores its then "ok" else "fail"
